@@ -39,6 +39,16 @@ CLAIMED['C20'] = dict(design='8/C20', technique='deductive verification: represe
 CLAIMED['C19'] = dict(design='8/C19', technique='deductive frame/provenance obligations on every library function over go/ssa (no store to, or escape of, package-level memory outside init; no goroutine/channel/sync/atomic/unsafe use); race freedom by a stated non-interference argument',
    text='Proof of the property\'s premise: for each of ~2150 functions of the library packages three frame obligations (global-write, global-escape, sync) and one per package-level variable are discharged by a provenance analysis of the SSA of the current tree. The conclusion about all interleavings (no data race, sequential results) is reached only through the non-interference meta-argument listed under assumptions; interleavings are not explored.',
    note='Schedules are not enumerated. Trusted: logrus entries are internally synchronised; standard-library/dependency callees keep no cross-call state; the meta-argument from frame conditions to race freedom is on paper.')
+TB_CRYPTO = 'Oracle /verif/spec (Go functions written from the standards, reproducing the published test vectors on every run; ZUC S-boxes/D are a snapshot of published constants). AES/CTR/CMAC are uninterpreted dependencies. LENGTH <= 8*len and inputs below 2^28 octets are preconditions of the per-algorithm functions. go/ssa lowering and SMT solvers trusted.'
+CLAIMED['C06'] = dict(design='8/C06', technique='deductive verification: per-function contracts against executable specification functions (uninterpreted at call sites, definitional axioms in own clauses), quantified loop invariants, modular; z3/cvc5',
+   text='Proof, for all keys, counts, bearers, directions, inputs and bit lengths, that snow3g and zuc compute the SNOW 3G / ZUC keystream of the specifications (every function against its specification function, keystream loops by invariant), that NEA1/NEA3 output IBS xor that keystream under the TS 33.401 parameter mapping for every LENGTH, NEA2 is AES-CTR under the specified counter block, and NASEncrypt applies them with LENGTH = 8*len in place.',
+   note=TB_CRYPTO)
+CLAIMED['C07'] = dict(design='8/C07', technique='deductive verification: per-function contracts against executable specification functions (UIA2 f9 with GF(2^64) MUL, EIA3 universal hash), recursive spec functions with one-step unfolding in loop invariants; z3/cvc5',
+   text='Proof that NIA1 equals UIA2 f9 for every bit length (including 0 and lengths not multiple of 8/32/64), NIA2 equals the 32-bit truncation of AES-CMAC over the specified prefix and message, NIA3 computes the EIA3 universal hash over the ZUC keystream of the EIA3 IV, and NASMacCalculate dispatches with LENGTH = 8*len; SNOW 3G / ZUC cores as in C06.',
+   note=TB_CRYPTO + ' 128-EIA3 is stated over NIA3\'s own keystream array (see evidence).')
+CLAIMED['C08'] = dict(design='8/C08', technique='deductive verification: postconditions of NASEncrypt/NASMacCalculate from the statement, safety obligations for all lengths, frame obligations; laws as consequences of a keystream function without payload argument; z3/cvc5',
+   text='Proof of the API laws for all 256 algorithm identities, bearers, directions and all payload lengths including 0: guards give errors and leave the payload untouched, otherwise payload[j] = old payload[j] xor KS(alg,key,count,bearer,direction,j) (involution, prefix stability, plaintext independence follow), algorithm 0 is the identity / all-zero MAC, MAC is exactly 4 fresh octets, key and message unmodified, no panic.',
+   note=TB_CRYPTO)
 REASONS = {}
 checks = []
 for p in props:
